@@ -128,6 +128,16 @@ def expect_failure(sess, case, prog, root, style, node, excname, sigs, already_s
     return completed, stack, set(res.get("stored", []))
 
 
+def check_committed(sess, it, when, case):
+    """after a successful evaluation every path it kept is committed (as if the failed evaluation had not happened)"""
+    for p, v in sorted(it.kept.items()):
+        r = sess.load(p)
+        if r["exc"] is not None:
+            raise Violation(f"{when}: the evaluation succeeded but its path {p} does not load: {r['exc']['type']}: {r['exc']['msg'][:200]}", case)
+        if r["value"] != v:
+            raise Violation(f"{when}: the evaluation succeeded but its path {p} loads {r['value']!r}, kept value {v!r}", case)
+
+
 def check_case(case, ev=None, scratch=None):
     own = scratch is None
     scratch = scratch or common.Scratch("vf-c10")
@@ -167,6 +177,7 @@ def check_case(case, ev=None, scratch=None):
                 for p, k in res["sigs"].items():
                     if p in sigs and sigs[p] != k:
                         raise Violation(f"{when}: signature of {p} differs from the fault-free twin run", case)
+                check_committed(sess, it, when, case)
                 all_stored |= set(res.get("stored", []))
             elif fol == "other":
                 ents = [e for e in G.entries(prog) if e[1] == "eval"]
@@ -175,6 +186,7 @@ def check_case(case, ev=None, scratch=None):
                 exp, it = M.expected_value(prog, r2)
                 if res["exc"] is not None or res["value"] != exp:
                     raise Violation(f"{when}: evaluating f{r2} after the failure gave {res['exc'] or res['value']!r}, expected {exp!r}", case)
+                check_committed(sess, it, when, case)
                 all_stored |= set(res.get("stored", []))
             else:
                 _c, _s, st2 = expect_failure(sess, case, prog, root, style, case["node2"], case["exc2"], sigs, all_stored, when,
